@@ -57,12 +57,13 @@ ActObs(s) == [received |-> s.received, updates |-> s.updates]
 -----------------------------------------------------------------------------
 (* encoder *)
 EncInit == [now |-> 0, own |-> Nothing, updOk |-> TRUE, gout |-> Absent, updates |-> 0]
-EncOps == {[op |-> "getter", o |-> "err"], [op |-> "getter", o |-> "none"], [op |-> "getter", o |-> "some"],
+EncOps == {[op |-> "getter", o |-> "err"], [op |-> "getter", o |-> "none"], [op |-> "getter", o |-> "some"], [op |-> "getter", o |-> "stale"],
            [op |-> "updok", b |-> FALSE], [op |-> "updok", b |-> TRUE], [op |-> "update"]}
 EncStep(o) ==
   CASE o.op = "getter" ->
          <<[st EXCEPT !.now = @ + 1,
-                      !.gout = CASE o.o = "err" -> Err(1) [] o.o = "none" -> Absent [] o.o = "some" -> Some(st.now + 1, StateVal(st.now + 1))], RetOk>>
+                      !.gout = CASE o.o = "err" -> Err(1) [] o.o = "none" -> Absent [] o.o = "some" -> Some(st.now + 1, StateVal(st.now + 1))
+                                   [] o.o = "stale" -> Some(0, StateVal(st.now + 1))], RetOk>>      \* a reading with an old timestamp is written all the same
     [] o.op = "updok" -> <<[st EXCEPT !.updOk = o.b], RetOk>>
     [] o.op = "update" ->
          IF ~st.updOk THEN <<st, RetErr(UpdErr)>>                                   \* the inner update's error is propagated first
